@@ -4,6 +4,7 @@ package main
 // library routine; the second round of answers is recorded for spec/mesh/EditorJudge.tla.
 
 import (
+	"math"
 	"math/rand"
 	"sort"
 
@@ -41,35 +42,45 @@ func init() {
 		out := newNDWriter(a.str("out", "records.ndjson"))
 		defer out.close()
 		stats := map[string]int{}
-		editors := map[string]func(m *model3d.Mesh){
-			"FlattenBase":       func(m *model3d.Mesh) { m.FlattenBase(0) },
-			"Blur":              func(m *model3d.Mesh) { m.Blur(0.3) },
-			"SmoothAreas":       func(m *model3d.Mesh) { m.SmoothAreas(0.05, 2) },
-			"EliminateCoplanar": func(m *model3d.Mesh) { m.EliminateCoplanar(1e-8) },
-			"EliminateEdges": func(m *model3d.Mesh) {
-				m.EliminateEdges(func(tmp *model3d.Mesh, s model3d.Segment) bool { return s.Length() < 1.2 })
+		editors := map[string]func(m *model3d.Mesh) *model3d.Mesh{
+			"FlattenBase":       func(m *model3d.Mesh) *model3d.Mesh { return m.FlattenBase(0) },
+			"Blur":              func(m *model3d.Mesh) *model3d.Mesh { return m.Blur(0.3) },
+			"SmoothAreas":       func(m *model3d.Mesh) *model3d.Mesh { return m.SmoothAreas(0.05, 2) },
+			"EliminateCoplanar": func(m *model3d.Mesh) *model3d.Mesh { return m.EliminateCoplanar(1e-8) },
+			"EliminateEdges": func(m *model3d.Mesh) *model3d.Mesh {
+				return m.EliminateEdges(func(tmp *model3d.Mesh, s model3d.Segment) bool { return s.Length() < 1.2 })
 			},
-			"DecimateSimple":   func(m *model3d.Mesh) { model3d.DecimateSimple(m, 0.02) },
-			"FlipDelaunay":     func(m *model3d.Mesh) { m.FlipDelaunay() },
-			"SubdivideEdges":   func(m *model3d.Mesh) { model3d.SubdivideEdges(m, 2) },
-			"LoopSubdivision":  func(m *model3d.Mesh) { model3d.LoopSubdivision(m, 1) },
-			"MapCoords":        func(m *model3d.Mesh) { m.MapCoords(func(c model3d.Coord3D) model3d.Coord3D { return c.Scale(2) }) },
-			"Repair":           func(m *model3d.Mesh) { m.Repair(1e-6) },
-			"RepairNormals":    func(m *model3d.Mesh) { m.RepairNormals(1e-6) },
-			"InvertNormals":    func(m *model3d.Mesh) { m.InvertNormals() },
-			"MeshToCollider":   func(m *model3d.Mesh) { model3d.MeshToCollider(m) },
-			"MeshToSDF":        func(m *model3d.Mesh) { model3d.MeshToSDF(m) },
-			"MeshToPlaneGraph": func(m *model3d.Mesh) { model3d.MeshToPlaneGraphs(m) },
-			"MeshToHierarchy":  func(m *model3d.Mesh) { model3d.MeshToHierarchy(m) },
-			"ARAP":             func(m *model3d.Mesh) { model3d.NewARAP(m) },
-			"VoxelSmoother":    func(m *model3d.Mesh) { (&model3d.VoxelSmoother{StepSize: 0.1, Iterations: 2}).Smooth(m) },
+			// welds only edges that are a few ulps long: the midpoint of such an edge is one of its ends
+			"EliminateEdges(ulp)": func(m *model3d.Mesh) *model3d.Mesh {
+				return m.EliminateEdges(func(tmp *model3d.Mesh, s model3d.Segment) bool { return s.Length() < 1e-9 })
+			},
+			"DecimateSimple":  func(m *model3d.Mesh) *model3d.Mesh { return model3d.DecimateSimple(m, 0.02) },
+			"FlipDelaunay":    func(m *model3d.Mesh) *model3d.Mesh { return m.FlipDelaunay() },
+			"SubdivideEdges":  func(m *model3d.Mesh) *model3d.Mesh { return model3d.SubdivideEdges(m, 2) },
+			"LoopSubdivision": func(m *model3d.Mesh) *model3d.Mesh { return model3d.LoopSubdivision(m, 1) },
+			"MapCoords": func(m *model3d.Mesh) *model3d.Mesh {
+				return m.MapCoords(func(c model3d.Coord3D) model3d.Coord3D { return c.Scale(2) })
+			},
+			"Repair":           func(m *model3d.Mesh) *model3d.Mesh { return m.Repair(1e-6) },
+			"RepairNormals":    func(m *model3d.Mesh) *model3d.Mesh { r, _ := m.RepairNormals(1e-6); return r },
+			"InvertNormals":    func(m *model3d.Mesh) *model3d.Mesh { m.InvertNormals(); return nil },
+			"MeshToCollider":   func(m *model3d.Mesh) *model3d.Mesh { model3d.MeshToCollider(m); return nil },
+			"MeshToSDF":        func(m *model3d.Mesh) *model3d.Mesh { model3d.MeshToSDF(m); return nil },
+			"MeshToPlaneGraph": func(m *model3d.Mesh) *model3d.Mesh { model3d.MeshToPlaneGraphs(m); return nil },
+			"MeshToHierarchy":  func(m *model3d.Mesh) *model3d.Mesh { model3d.MeshToHierarchy(m); return nil },
+			"ARAP":             func(m *model3d.Mesh) *model3d.Mesh { model3d.NewARAP(m); return nil },
+			"VoxelSmoother": func(m *model3d.Mesh) *model3d.Mesh {
+				(&model3d.VoxelSmoother{StepSize: 0.1, Iterations: 2}).Smooth(m)
+				return nil
+			},
 			// edits its argument in place by contract
-			"Subdivider.Subdivide": func(m *model3d.Mesh) {
+			"Subdivider.Subdivide": func(m *model3d.Mesh) *model3d.Mesh {
 				sub := model3d.NewSubdivider()
 				sub.AddFiltered(m, func(p1, p2 model3d.Coord3D) bool { return p1.Dist(p2) > 1.5 })
 				sub.Subdivide(m, func(p1, p2 model3d.Coord3D) model3d.Coord3D { return p1.Mid(p2) })
+				return nil
 			},
-			"AddMesh(self-copy)": func(m *model3d.Mesh) { m.AddMesh(m.Copy()) },
+			"AddMesh(self-copy)": func(m *model3d.Mesh) *model3d.Mesh { m.AddMesh(m.Copy()); return nil },
 		}
 		var names []string
 		for k := range editors {
@@ -77,7 +88,7 @@ func init() {
 		}
 		sort.Strings(names)
 		id := 0
-		for _, meshName := range []string{"box", "boxsub", "voxL", "octa", "thin", "roundbox", "ico", "skirt"} {
+		for _, meshName := range []string{"box", "boxsub", "voxL", "octa", "thin", "roundbox", "ico", "skirt", "ulpring"} {
 			for _, ed := range names {
 				id++
 				rec := edRec{ID: id, Site: ed, Mesh: meshName, F: [][]int{}, VSlice: []int{}, Find1: []edFind1{}, Find2: []edFind2{}, Nbrs: []edNbr{}}
@@ -97,6 +108,23 @@ func init() {
 						{pab, b, top}, {b, pbc, top}, {pbc, c, top}, {c, pcd, top}, {pcd, d, top}, {d, pda, top}, {pda, a, top}, {a, pab, top}} {
 						m.Add(&model3d.Triangle{t[0], t[1], t[2]})
 					}
+				} else if meshName == "ulpring" {
+					// a bipyramid over a ring in which two (or three) neighbouring ring points are one ulp apart
+					top, bot := model3d.XYZ(0.3, 0.2, 1.5), model3d.XYZ(0.1, -0.2, -1.25)
+					p := model3d.XYZ(1.1, 0.3, 0.1)
+					p1 := p
+					p1.X = math.Nextafter(p.X, 2)
+					q := model3d.XYZ(-0.4, 1.3, 0.2)
+					q1, q2 := q, q
+					q1.Y = math.Nextafter(q.Y, 2)
+					q2.Y = math.Nextafter(q1.Y, 2)
+					ring := []model3d.Coord3D{p, p1, q, q1, q2, model3d.XYZ(-1.2, -0.1, -0.1), model3d.XYZ(0.1, -1.3, 0.05)}
+					m = model3d.NewMesh()
+					for i := range ring {
+						a, b := ring[i], ring[(i+1)%len(ring)]
+						m.Add(&model3d.Triangle{top, a, b})
+						m.Add(&model3d.Triangle{bot, b, a})
+					}
 				} else {
 					m, _, _ = mesh3(meshName)
 				}
@@ -107,14 +135,8 @@ func init() {
 					}
 					return vname[c]
 				}
-				rec.Panic = protect(func() {
-					// first round of queries: builds the lazy index
-					for _, v := range m.VertexSlice() {
-						nameOf(v)
-						m.Find(v)
-					}
-					editors[ed](m)
-					// second round on the same object
+				var result *model3d.Mesh
+				observe := func(rec *edRec, m *model3d.Mesh) {
 					tris := m.TriangleSlice()
 					fidx := map[*model3d.Triangle]int{}
 					for i, t := range tris {
@@ -151,11 +173,32 @@ func init() {
 						f := rng.Intn(len(tris))
 						rec.Nbrs = append(rec.Nbrs, edNbr{F: f + 1, Fs: ids(m.Neighbors(tris[f]))})
 					}
+				}
+				rec.Panic = protect(func() {
+					// first round of queries: builds the lazy index
+					for _, v := range m.VertexSlice() {
+						nameOf(v)
+						m.Find(v)
+					}
+					result = editors[ed](m)
+					// second round on the same object
+					observe(&rec, m)
 				})
 				out.write(rec)
 				stats["records"]++
 				stats["nonempty"]++
 				stats["site:"+ed]++
+				if result != nil && result != m && rec.Panic == "" {
+					// the mesh the routine handed back has been through the library's own in-place edits:
+					// its answers must describe its own faces too
+					id++
+					res := edRec{ID: id, Site: ed + ":result", Mesh: meshName, F: [][]int{}, VSlice: []int{}, Find1: []edFind1{}, Find2: []edFind2{}, Nbrs: []edNbr{}}
+					res.Panic = protect(func() { observe(&res, result) })
+					out.write(res)
+					stats["records"]++
+					stats["nonempty"]++
+					stats["site:"+res.Site]++
+				}
 			}
 		}
 		writeJSONFile(a.str("stats", "stats.json"), stats)
